@@ -51,6 +51,7 @@ type Addr struct {
 
 // State is the symbolic store at a program point.
 type State struct {
+	id      int
 	pc      string
 	cells   map[*ssa.Alloc]Val
 	heaps   map[string]string
@@ -61,7 +62,7 @@ type State struct {
 }
 
 func (s *State) clone() *State {
-	n := &State{pc: s.pc, epoch: s.epoch, nextRef: s.nextRef, dead: s.dead,
+	n := &State{id: s.id, pc: s.pc, epoch: s.epoch, nextRef: s.nextRef, dead: s.dead,
 		cells: make(map[*ssa.Alloc]Val, len(s.cells)), heaps: make(map[string]string, len(s.heaps)),
 		ghost: make(map[string]Val, len(s.ghost))}
 	for k, v := range s.cells {
@@ -73,6 +74,16 @@ func (s *State) clone() *State {
 	for k, v := range s.ghost {
 		n.ghost[k] = v
 	}
+	return n
+}
+
+// fork returns a copy of st that is a new node of the state graph (its
+// hypotheses will not be visible to obligations of sibling branches).
+func (e *Exec) fork(st *State) *State {
+	n := st.clone()
+	e.stateSeq++
+	n.id = e.stateSeq
+	e.ctx.parents[n.id] = []int{st.id}
 	return n
 }
 
@@ -118,15 +129,21 @@ func (e *Exec) heapTerm(st *State, name string) string {
 	if _, ok := e.ctx.declared[t]; !ok {
 		e.ctx.declare(t, hi.sort)
 		if st.epoch == 0 {
+			saved := e.ctx.tag
+			e.ctx.tag = 0
 			e.heapFacts(st, name, t, hi, e.nextRef0, "true")
+			e.ctx.tag = saved
 		} else if ef := e.epochFrames[st.epoch]; ef != nil {
 			// heap first mentioned after an effect with a known frame: relate
 			// it to the version before that effect
 			old := e.heapTerm(ef.prev, name)
+			saved := e.ctx.tag
+			e.ctx.tag = ef.tag
 			if k := ef.keep(name); k != nil {
 				e.frameAssume(ef.pc, name, t, old, k)
 			}
 			e.heapFacts(st, name, t, hi, ef.nextRefAfter, ef.pc)
+			e.ctx.tag = saved
 		}
 	}
 	return t
@@ -135,6 +152,7 @@ func (e *Exec) heapTerm(st *State, name string) string {
 // epochFrame describes an effect after which every heap not explicitly
 // re-versioned keeps the contents of the objects selected by keep.
 type epochFrame struct {
+	tag          int
 	prev         *State
 	pc           string
 	nextRefAfter string
@@ -148,7 +166,7 @@ type epochFrame struct {
 func (e *Exec) freshAllHavoc(st *State, prev *State, explicit map[string]string) {
 	preRef := prev.nextRef
 	ep := e.newEpoch()
-	e.epochFrames[ep] = &epochFrame{prev: prev, pc: st.pc, nextRefAfter: st.nextRef,
+	e.epochFrames[ep] = &epochFrame{tag: st.id, prev: prev, pc: st.pc, nextRefAfter: st.nextRef,
 		keep: func(heap string) func(r string) string {
 			return func(r string) string { return lt(app("root", r), preRef) }
 		}}
@@ -191,7 +209,10 @@ func (e *Exec) heapFacts(st *State, name, t string, hi *heapInfo, nextRef, pc st
 	}
 	f := e.valueFacts(v, hi.valType, nextRef)
 	if f != "true" {
-		e.ctx.assume(imp(pc, "(forall "+bind+" (! "+f+" :pattern ("+v+")))"))
+		// only objects that exist (are allocated) carry well-typed contents;
+		// nothing is known about memory that has not been allocated yet
+		alloc := lt(app("root", "r"), nextRef)
+		e.ctx.assume(imp(pc, "(forall "+bind+" (! "+imp(alloc, f)+" :pattern ("+v+")))"))
 	}
 }
 
@@ -297,7 +318,7 @@ func (e *Exec) cardFn(ks string) string {
 		ax = ax[:len(ax)-1]
 	}
 	for _, a := range ax {
-		e.ctx.assume(a)
+		e.ctx.assumeGlobal(a)
 	}
 	e.trust("finite-set cardinality lemmas CARD (card >= 0; card(empty) = 0; card of insert/delete; member ==> card >= 1; card > 0 ==> some member; A subset B ==> |A| <= |B| with equality only if A = B) are assumed mathematical facts about Go maps (which are finite)")
 	return fn
@@ -356,10 +377,10 @@ func (e *Exec) elemStoreFrame(nw, term string, hi *heapInfo) {
 	if len(b) == 4 && b[0] == "store" && b[1] == sel(old, r) {
 		abs, v := b[2], b[3]
 		hit := and(eq(slRef("s"), r), eq(add(slOff("s"), "i"), abs))
-		e.ctx.assume(fmt.Sprintf("(forall ((s Slice) (i Int)) (! (= %s (ite %s %s %s)) :pattern (%s) :pattern (%s)))", newEl, hit, v, oldEl, newEl, oldEl))
+		e.ctx.assume(fmt.Sprintf("(forall ((s Slice) (i Int)) (! (= %s (ite %s %s %s)) :pattern (%s)))", newEl, hit, v, oldEl, newEl))
 		return
 	}
-	e.ctx.assume(fmt.Sprintf("(forall ((s Slice) (i Int)) (! (=> (not (= (sl_ref s) %s)) (= %s %s)) :pattern (%s) :pattern (%s)))", r, newEl, oldEl, newEl, oldEl))
+	e.ctx.assume(fmt.Sprintf("(forall ((s Slice) (i Int)) (! (=> (not (= (sl_ref s) %s)) (= %s %s)) :pattern (%s)))", r, newEl, oldEl, newEl))
 }
 
 // frameAssume: heap version nw agrees with old on every object satisfying
@@ -373,7 +394,7 @@ func (e *Exec) frameAssume(pc, name, nw, old string, keep func(r string) string)
 	if hi.kind == 'E' {
 		newEl := e.elemAt(nw, hi.valType, "s", "i")
 		oldEl := e.elemAt(old, hi.valType, "s", "i")
-		e.ctx.assume(imp(pc, fmt.Sprintf("(forall ((s Slice) (i Int)) (! (=> %s (= %s %s)) :pattern (%s) :pattern (%s)))", keep("(sl_ref s)"), newEl, oldEl, newEl, oldEl)))
+		e.ctx.assume(imp(pc, fmt.Sprintf("(forall ((s Slice) (i Int)) (! (=> %s (= %s %s)) :pattern (%s)))", keep("(sl_ref s)"), newEl, oldEl, newEl)))
 	}
 }
 
@@ -408,9 +429,15 @@ func (e *Exec) mergeStates(ins []*State) *State {
 		return &State{pc: "false", dead: true, cells: map[*ssa.Alloc]Val{}, heaps: map[string]string{}, ghost: map[string]Val{}, nextRef: e.nextRef0}
 	}
 	if len(live) == 1 {
-		return live[0].clone()
+		return e.fork(live[0])
 	}
 	out := live[0].clone()
+	e.stateSeq++
+	out.id = e.stateSeq
+	for _, l := range live {
+		e.ctx.parents[out.id] = append(e.ctx.parents[out.id], l.id)
+	}
+	e.ctx.tag = out.id
 	pcs := make([]string, len(live))
 	for i, s := range live {
 		pcs[i] = s.pc
@@ -491,7 +518,7 @@ func (e *Exec) mergeStates(ins []*State) *State {
 			cellset[k] = true
 		}
 	}
-	for k := range cellset {
+	for _, k := range sortedAllocs(cellset) {
 		vals := make([]Val, len(live))
 		ok := true
 		for i, s := range live {
@@ -515,7 +542,7 @@ func (e *Exec) mergeStates(ins []*State) *State {
 			gset[k] = true
 		}
 	}
-	for k := range gset {
+	for _, k := range sortedKeys(gset) {
 		vals := make([]Val, len(live))
 		ok := true
 		for i, s := range live {
@@ -640,7 +667,7 @@ func (e *Exec) elemAt(ht string, elem types.Type, sl, i string) string {
 	if _, ok := e.ctx.declared[fn]; !ok {
 		hs := arraySort(sInt, arraySort(sInt, e.ctx.sortOf(elem)))
 		e.ctx.declareFun(fn, []string{hs, sSlice, sInt}, e.ctx.sortOf(elem))
-		e.ctx.assume(fmt.Sprintf("(forall ((H %s) (s Slice) (i Int)) (! (= (%s H s i) (select (select H (sl_ref s)) (+ (sl_off s) i))) :pattern ((%s H s i))))", hs, fn, fn))
+		e.ctx.assumeGlobal(fmt.Sprintf("(forall ((H %s) (s Slice) (i Int)) (! (= (%s H s i) (select (select H (sl_ref s)) (+ (sl_off s) i))) :pattern ((%s H s i))))", hs, fn, fn))
 	}
 	return app(fn, ht, sl, i)
 }
